@@ -21,8 +21,10 @@ class Obligation:
         self.status, self.backend, self.ms, self.line, self.path = status, backend, ms, line, path
         self.model, self.goal, self.pc = model, goal, pc
 
+    inputs = None
+
     def to_json(self):
-        return dict(name=self.name, kind=self.kind, function=self.func, clause=self.label, result=self.status,
+        return dict(inputs=self.inputs, name=self.name, kind=self.kind, function=self.func, clause=self.label, result=self.status,
                     backend=self.backend, ms=round(self.ms, 2), line=self.line, path="/".join(self.path))
 
 
@@ -63,6 +65,7 @@ class Engine(ExprMixin, StmtMixin, CallMixin, PrimMixin, NumpyMixin):
         self.pending = []
         self.stmt_stack = [None]
         self.used_contracts = set()
+        self.unknown_s = 0.0
 
     # ------------------------------------------------------------ obligations
     def oblige(self, st, goal, kind, label, node=None, fr=None):
@@ -77,11 +80,19 @@ class Engine(ExprMixin, StmtMixin, CallMixin, PrimMixin, NumpyMixin):
             goal = z3.BoolVal(False)
         goal = to_z3(goal)
         name = "%s/%s/%s" % (self.cur_func, kind, label)
-        res = solve.prove(st.pc, goal, timeout_s=self.timeout)
+        budget = self.timeout if self.unknown_s < 3 * self.timeout else max(1.0, self.timeout / 8)
+        res = solve.prove(st.pc, goal, timeout_s=budget)
+        if res["status"] == "unknown":
+            self.unknown_s += res["ms"] / 1000.0
         line = getattr(node, "lineno", None)
         ob = Obligation(name, kind, self.cur_func, label, res["status"], res["backend"], res["ms"], line,
-                        list(st.path), model=res.get("model"), goal=goal,
+                        list(st.path), model=res.get("model") or res.get("candidate"), goal=goal,
                         pc=list(st.pc) if res["status"] != "proved" else None)
+        if res["status"] != "proved" and ob.model is not None and fr is not None and getattr(fr, "params", None):
+            try:
+                ob.inputs = self.concretize_inputs(ob.model, fr)
+            except Exception as e:   # noqa
+                ob.inputs = None
         self.obls.append(ob)
         if self.verbose and res["status"] != "proved":
             print("   [%s] %s line=%s path=%s" % (res["status"], name, line, "/".join(st.path)))
@@ -100,6 +111,54 @@ class Engine(ExprMixin, StmtMixin, CallMixin, PrimMixin, NumpyMixin):
 
     def feasible(self, st, cond):
         return solve.feasible(st.pc, cond)
+
+    def concretize_inputs(self, model, fr):
+        """concrete (JSON) arguments of the function under verification from a (candidate) counter-model"""
+        entry = fr.entry
+        out = {}
+        for p, v in fr.params.items():
+            out[p] = self.concretize(model, v, entry)
+        return out
+
+    def concretize(self, model, v, st, depth=0):
+        def num(t):
+            r = model.eval(t, model_completion=True)
+            if z3.is_int_value(r):
+                return r.as_long()
+            if z3.is_rational_value(r):
+                return float(r.numerator_as_long()) / float(r.denominator_as_long())
+            if z3.is_true(r):
+                return True
+            if z3.is_false(r):
+                return False
+            if z3.is_algebraic_value(r):
+                a = r.approx(12)
+                return float(a.numerator_as_long()) / float(a.denominator_as_long())
+            return str(r)
+        if isinstance(v, z3.ExprRef):
+            return num(v)
+        if isinstance(v, (int, float, str, bool)) or v is None:
+            return v
+        if isinstance(v, tuple):
+            return {"__tuple__": [self.concretize(model, x, st, depth + 1) for x in v]}
+        if isinstance(v, SliceV):
+            return {"__slice__": [self.concretize(model, x, st, depth + 1) for x in (v.start, v.stop, v.step)]}
+        if isinstance(v, Ref):
+            h = st.get(v)
+            if isinstance(h, HArr):
+                n, t = self.arr_term(st, v)
+                nn = num(to_z3(n, "int"))
+                nn = max(0, min(int(nn), 12))
+                vals = [num(t[k]) for k in range(nn)]
+                if h.islist:
+                    return vals
+                return {"__ndarray__": vals, "dtype": {"int": "i8", "real": "f8", "bool": "?"}[h.kind]}
+            if isinstance(h, HObj):
+                return {"__obj__": h.cls, "fields": {k: self.concretize(model, x, st, depth + 1) for k, x in h.fields.items()},
+                        "items": {str(k): self.concretize(model, x, st, depth + 1) for k, x in h.items.items()}}
+            if isinstance(h, HList):
+                return [self.concretize(model, x, st, depth + 1) for x in h.items]
+        return repr(v)
 
     def note(self, msg):
         if msg not in self.notes:
